@@ -103,6 +103,15 @@ CHECKS["C04"] = (
     "DESIGN.md section 3, C04",
 )
 
+CHECKS["C14"] = (
+    "bounded-exhaustive enumeration of parser inputs (token strings, section grammars, emitted programs, partially documented signatures); shape invariant on every output",
+    "The property's shape predicate is evaluated on everything the parsers return for: all docstrings of <= 3 (thorough 4) tokens, all orders "
+    "of <= 4 of 8 sections in three styles, every interface of the alphabet emitted through 10 format variants and re-parsed, and functions "
+    "documenting every subset and permutation of a 3-parameter signature under five signature shapes.",
+    "the predicate in mc/checks/c14.py:wellformed transcribes the property text; top-level doc may be None (declared Optional[str])",
+    "DESIGN.md section 3, C14",
+)
+
 PENDING_REASON = "check not built yet in this revision (planned, see DESIGN.md section 3); no claim is made"
 
 
